@@ -10,7 +10,7 @@ CONFIG = {'gen': ['SmbCommands'],
          'assignments (tie only). distinct = distinct line; non-trivial = the implementation produced a value In half of the smb.rt cases '
          'the bytes are decoded twice into the same command object (the second decode must show the second message only). smb.dialects: '
          'the Dialects list as a value of its own (identifiers with high bytes; half of the decodes into a used value): Marshal, '
-         'Unmarshal, compare with one 02 name 00 per identifier.',
+         'Unmarshal, compare with one 02 name 00 per identifier. In half of the encodings the byte-string fields of the structure are windows of ONE backing array (each with the capacity left behind it, in an order other than the append order), as Unmarshal hands them out.',
  'assumptions': ['reflect-based field assignment in the harness sets exactly the exported fields of the command structure',
                  "the factories' constructors (New…() + Init()) give the initial field values passed to the model as env0"],
  'trusted': ['tools/extract/smb_commands.go (statement-by-statement translation of the 115 Marshal/Unmarshal bodies into the command IR; '
